@@ -529,7 +529,8 @@ fn gv_parse_event(cpsv: &[i64]) -> Value {
         Ok(Ok(Ok(v))) => {
             e["res"] = json!("ok");
             e["minor"] = json!(v.minor as u32);
-            e["patch"] = json!(v.patch.map(|p| p as i64).unwrap_or(-1));
+            // (TLC's integers have 32 bits: a larger revision is reported as -2, "beyond")
+            e["patch"] = json!(v.patch.map(|p| if p > i32::MAX as usize { -2 } else { p as i64 }).unwrap_or(-1));
             let printed = v.to_string();
             e["printed"] = cps(&printed);
             e["finite"] = json!(v.major.is_finite());
